@@ -407,14 +407,14 @@ func TestC07(t *testing.T) {
 	}
 
 	// 2. random triples
-	rapidCheck(t, "ops", tierN(4000, 300000), func(rt *rapid.T) {
+	rapidCheck(t, "ops", tierN(12000, 300000), func(rt *rapid.T) {
 		a, b, c := genGL().Draw(rt, "a"), genGL().Draw(rt, "b"), genGL().Draw(rt, "c")
 		doOps(rt, genMode().Draw(rt, "mode"), a, b, c, "random-triple")
 	})
 
 	// 3. reduce
 	widths := []uint64{0, 0, 0, 64, 80, 96, 128, 144}
-	rapidCheck(t, "reduce", tierN(3000, 200000), func(rt *rapid.T) {
+	rapidCheck(t, "reduce", tierN(8000, 200000), func(rt *rapid.T) {
 		bits := rapid.SampledFrom(widths).Draw(rt, "bits")
 		w := bits
 		if w == 0 {
@@ -440,7 +440,7 @@ func TestC07(t *testing.T) {
 	})
 
 	// 4. operation sequences on the engine and on compiled systems
-	rapidCheck(t, "programs", tierN(900, 60000), func(rt *rapid.T) {
+	rapidCheck(t, "programs", tierN(2500, 60000), func(rt *rapid.T) {
 		p := genProg().Draw(rt, "program")
 		p.Backend = rapid.SampledFrom([]string{"eng", "r1cs", "r1cs", "scs"}).Draw(rt, "backend")
 		p.Mode = rapid.IntRange(0, 1).Draw(rt, "mode")
